@@ -421,7 +421,7 @@ def _cli_case(rng, max_dim):
     """a `biom convert ... --to-hdf5` command line: input JSON or TSV, table type, collapsed axes,
     observation-metadata processing, sample mapping file"""
     c = U.rand_case(rng, max_dim, writer='convert_cli', empty_axis=False)
-    for k in ('gen2', 'np_md', 'prelude'):
+    for k in ('gen2', 'np_md', 'prelude', 'md_edit'):
         c.pop(k, None)
     s = c['spec']
     s['layout'] = ['dense']
@@ -470,7 +470,7 @@ def _cli_case(rng, max_dim):
     return c
 
 
-REFUSALS = ['first-fewer', 'first-more', 'disjoint', 'only-later-ids', 'only-first-id', 'some-missing',
+REFUSALS = ['cleared-through-accessor', 'first-fewer', 'first-more', 'disjoint', 'only-later-ids', 'only-first-id', 'some-missing',
             'flat-taxonomy-and-none', 'text-under-list-category']
 
 
@@ -479,7 +479,7 @@ def _refusal_case(rng, max_dim, kind):
     ids, flat taxonomy text next to None, text under a list category.  The writer has to refuse it (the model
     says which exception); a file that is written all the same has to decode to the table."""
     c = U.rand_case(rng, max_dim)
-    for k in ('gen2', 'np_md', 'history'):
+    for k in ('gen2', 'np_md', 'history', 'md_edit'):
         c.pop(k, None)
     s = c['spec']
     s['omd'] = s['smd'] = None
@@ -490,7 +490,12 @@ def _refusal_case(rng, max_dim, kind):
         n = 2
     val = lambda: rng.choice(['x', 'y z', 3, 0.5, True])
     j = rng.randrange(1, n)
-    if kind == 'first-fewer':
+    if kind == 'cleared-through-accessor':
+        before = [{'a': 'x', 'b': i} for i in range(n)]
+        ids = sorted(rng.sample(range(n), rng.randint(1, n - 1)))
+        c['md_edit'] = {'axis': ax, 'mode': 'clear_some', 'ids': ids, 'before': before}
+        rows = [{} if i in ids else dict(m) for i, m in enumerate(before)]
+    elif kind == 'first-fewer':
         rows = [{'a': 'x'} for _ in range(n)]
         rows[j]['b'] = val()
         if rng.random() < 0.5:
@@ -534,7 +539,8 @@ def classify(case):
                                         'theorem-domain:%s' % ('inside' if _in_domain(case) else 'outside')]
     return U.classify_case(case) + [U.layout_tag(_state(case)), 'theorem-domain:%s' % ('inside' if _in_domain(case) else 'outside'),
                                     'history:%s' % (case.get('history') or 'write'), 'ids-given-as:%s' % (case.get('ids_as') or 'list'),
-                                    'earlier-write-with-format_fs:%s' % bool(case.get('prelude'))]
+                                    'earlier-write-with-format_fs:%s' % bool(case.get('prelude')),
+                                    'live-metadata-edited:%s' % ((case.get('md_edit') or {}).get('mode') or 'no')]
 
 
 def shrink(case):
